@@ -4,8 +4,9 @@
 // shared L2 cache: (a) emulated in one OS process by swapping the L1 singletons, L2 = one in-memory cache or the
 // real adapters/redis client against harness/fakeredis; (b) two real child processes, each with its own redis
 // client to the fakeredis server of the parent. Histories of reads (NoCheck / ForReading / ForWriting), writes,
-// L1 evictions (node MRU, Handles) and L2 flushes; every answer is diffed with Sop.Model.Cache and judged against
-// the last committed content.
+// L1 evictions (node MRU, Handles) and L2 flushes, and aborted updates (abort: read, Update, Rollback — what the
+// transaction did to the node it read must not reach any cache); every answer is diffed with Sop.Model.Cache and judged
+// against the last committed content.
 package main
 
 import (
@@ -112,6 +113,42 @@ func doWrite(ctx context.Context, e *txk.Env, c int) string {
 	return "ok"
 }
 
+// doAbort: a ForWriting transaction reads the item, updates it to content c and ROLLS BACK. It answers what it read.
+// Its cache footprint is that of a read (the node is fetched through the three-level lookup); the update must stay
+// private to the transaction, whichever cache level served the node.
+func doAbort(ctx context.Context, e *txk.Env, c int) string {
+	t, err := e.NewTxn(ctx, sop.ForWriting, 20*time.Second, nil)
+	if err != nil {
+		return "! err"
+	}
+	if err := t.T.Begin(ctx); err != nil {
+		return "! err"
+	}
+	b, err := txk.OpenBtree[int, string](ctx, t, storeName)
+	if err != nil {
+		t.T.Rollback(ctx)
+		return "! err"
+	}
+	ok, err := b.Find(ctx, 1, false)
+	if err != nil || !ok {
+		t.T.Rollback(ctx)
+		return "! err"
+	}
+	v, err := b.GetCurrentValue(ctx)
+	if err != nil {
+		t.T.Rollback(ctx)
+		return "! err"
+	}
+	if ok, err := b.UpdateCurrentValue(ctx, val(c)); err != nil || !ok {
+		t.T.Rollback(ctx)
+		return "! err"
+	}
+	if err := t.T.Rollback(ctx); err != nil {
+		return unval(v) + " err"
+	}
+	return unval(v) + " rb"
+}
+
 func dropL1(nodes, handles bool) {
 	for _, l1 := range cache.VerifC20Registry() {
 		if nodes {
@@ -132,6 +169,9 @@ func local(ctx context.Context, e *txk.Env, w []string) string {
 	case "write":
 		c, _ := strconv.Atoi(w[1])
 		return doWrite(ctx, e, c)
+	case "abort":
+		c, _ := strconv.Atoi(w[1])
+		return doAbort(ctx, e, c)
 	case "dropmru":
 		dropL1(true, false)
 		return "ok"
@@ -324,7 +364,7 @@ func (w *world) close() {
 // ---- cases ----
 
 type op struct {
-	kind string // read write dropmru droph flushl2
+	kind string // read write abort dropmru droph flushl2
 	p    int
 	mode string
 	c    int
@@ -336,6 +376,8 @@ func (o op) line() string {
 		return fmt.Sprintf("read %d %s", o.p, o.mode)
 	case "write":
 		return fmt.Sprintf("write %d %d", o.p, o.c)
+	case "abort":
+		return fmt.Sprintf("abort %d %d", o.p, o.c)
 	case "flushl2":
 		return "flushl2"
 	}
@@ -353,16 +395,19 @@ func gen(p *hx.Prng, single bool) []op {
 		if single {
 			pr = 0
 		}
-		switch x := p.Intn(20); {
+		switch x := p.Intn(24); {
 		case x < 9:
 			ops = append(ops, op{kind: "read", p: pr, mode: modes[p.Intn(3)]})
 		case x < 15:
 			c++
 			ops = append(ops, op{kind: "write", p: pr, c: c})
-		case x < 17:
+		case x < 18:
 			ops = append(ops, op{kind: "dropmru", p: pr})
-		case x < 19:
+		case x < 20:
 			ops = append(ops, op{kind: "droph", p: pr})
+		case x < 23:
+			// an aborted update (its content is never committed: 9xx)
+			ops = append(ops, op{kind: "abort", p: pr, c: 900 + p.Intn(100)})
 		default:
 			ops = append(ops, op{kind: "flushl2"})
 		}
@@ -396,6 +441,7 @@ func runCase(s *hx.Session, ctx context.Context, kind, label string, c0 int, ops
 	ownHandle := [2]bool{}
 	superseded := [2]bool{}
 	twoProc := false
+	var aborted []string // contents of updates that were rolled back
 	for _, o := range ops {
 		var out string
 		if w.short {
@@ -410,6 +456,9 @@ func runCase(s *hx.Session, ctx context.Context, kind, label string, c0 int, ops
 			out = w.procs[o.p].do([]string{"read", o.mode})
 		case "write":
 			out = w.procs[o.p].do([]string{"write", strconv.Itoa(o.c)})
+		case "abort":
+			out = w.procs[o.p].do([]string{"abort", strconv.Itoa(o.c)})
+			aborted = append(aborted, strconv.Itoa(o.c))
 		default:
 			out = w.procs[o.p].do([]string{o.kind})
 		}
@@ -417,7 +466,7 @@ func runCase(s *hx.Session, ctx context.Context, kind, label string, c0 int, ops
 		s.Hit("op:" + o.kind)
 		staleCtx := ownHandle[o.p] && superseded[o.p]
 		switch o.kind {
-		case "read":
+		case "read", "abort":
 			f := strings.Fields(out)
 			want := strconv.Itoa(cur)
 			if len(f) != 2 {
@@ -426,13 +475,27 @@ func runCase(s *hx.Session, ctx context.Context, kind, label string, c0 int, ops
 			}
 			if f[0] != want {
 				sig := "C20/stale-read"
-				if staleCtx {
+				wasAborted := false
+				prev := aborted
+				if o.kind == "abort" {
+					prev = aborted[:len(aborted)-1] // its own update is the last entry
+				}
+				for _, a := range prev {
+					if a == f[0] {
+						wasAborted = true
+					}
+				}
+				if wasAborted {
+					sig = "C20/read-returns-rolled-back-update"
+				} else if staleCtx {
 					sig = "C20/stale-read-via-own-l1-handle-after-other-process-commit"
 					s.Hit("stale:" + o.mode + ":" + f[1])
 				}
 				failCapped(s, sig, "a read returned something other than the last committed content", fmt.Sprintf("%s: got %s want %s", o.line(), out, want))
-			} else if f[1] != "ok" {
+			} else if f[1] != "ok" && o.kind == "read" {
 				failCapped(s, "C20/fresh-read-cannot-commit", "a transaction that read the current content failed to commit", o.line()+": "+out)
+			} else if f[1] != "rb" && o.kind == "abort" {
+				failCapped(s, "C20/rollback-failed", "the rollback of an update failed", o.line()+": "+out)
 			}
 		case "write":
 			if out == "ok" {
@@ -466,7 +529,7 @@ func runCase(s *hx.Session, ctx context.Context, kind, label string, c0 int, ops
 
 func run(o hx.RunOpts) error {
 	s := hx.NewSession(o, "one case = one single-item store on a shared folder, two processes with separate L1 caches and one shared L2 (in-memory, or real adapters/redis client on a fake Redis; 'procs' = two real child processes), 4-15 operations: "+
-		"read (NoCheck|ForReading|ForWriting, Find+GetCurrentValue+Commit), write (Update+Commit), drop one process's node MRU or Handles cache, flush L2; every answer diffed with Sop.Model.Cache; oracle: read = last committed content and lone commits succeed. "+
+		"read (NoCheck|ForReading|ForWriting, Find+GetCurrentValue+Commit), write (Update+Commit), abort (read+UpdateCurrentValue+Rollback), drop one process's node MRU or Handles cache, flush L2; every answer diffed with Sop.Model.Cache; oracle: read = last committed content and lone commits succeed. "+
 		"distinct = canonical op hash; non-trivial = at least 4 operations. "+
 		"'si' cases (storeinfo.go): 2-4 stores, real fs StoreRepository.Update called directly or by the commit of a real multi-store transaction, with a concurrent removal / an unreadable or read-only storeinfo.txt / an eviction / a refused SetStruct at one store "+
 		"(forward pass or undo); every Add/Update replayed on Sop.Model.StoreInfoCache; after each, per store: cache-first Get/GetWithTTL == cold process == file, file restored after a failed Update, next Update's base = file, Count = items after a following commit; non-trivial = undo ran for at least one store")
